@@ -178,8 +178,13 @@ class Injector:
                     return True
                 self.fired[i] = True
         for i, pl in enumerate(self.plans):
+            # "hold": processes of one kind do not move while a process of another kind is alive (a node that is slow to
+            # leave the scheduler while the user's command runs)
+            if pl["kind"] == "hold" and q.label == pl["label"] and any(x.alive and x.label == pl["while"] for x in world.procs):
+                return True
+        for i, pl in enumerate(self.plans):
             if pl["kind"] == "stall" and q.host == "user" and q.nsteps == pl["j"]:
-                others = [f for k2, f in enumerate(self.fired) if self.plans[k2]["kind"] not in ("stall", "usertry", "delay", "prio")]
+                others = [f for k2, f in enumerate(self.fired) if self.plans[k2]["kind"] not in ("stall", "usertry", "delay", "prio", "hold")]
                 if not all(others):
                     return True
         return False
@@ -188,7 +193,10 @@ class Injector:
         for i, pl in enumerate(self.plans):
             if not self.fired[i] and pl["kind"] == "usertry" and self.run is not None:
                 st = world.last_status.get(world.out)
-                if pl.get("when") == "free":
+                if pl.get("when") == "complete":
+                    # as soon as the completion flag is set -- the completing round and its batch may still be running
+                    go = st is not None and st["complete"] and st["sub"] == ""
+                elif pl.get("when") == "free":
                     go = st is not None and st["sub"] == "" and not st["complete"] and world._active() > 0 and \
                         world.steps >= pl.get("t", 0)
                 else:
@@ -197,6 +205,7 @@ class Injector:
                     self.fired[i] = True
                     argv = pl.get("argv") or ["try-submit-jobs", "{out}"]
                     self.run.user(*[a.replace("{out}", world.out) for a in argv], host=pl.get("host", "user"))
+                    moves = world.enabled() or moves          # the new process can move too
         free = [m for m in moves if not self._stalled(world, m)]
         if free:
             moves = free
@@ -209,7 +218,7 @@ class Injector:
                     moves = first
         mv = moves[self.rng.randrange(len(moves))]
         for i, pl in enumerate(self.plans):
-            if self.fired[i] or pl["kind"] in ("usertry", "stall", "delay", "prio"):
+            if self.fired[i] or pl["kind"] in ("usertry", "stall", "delay", "prio", "hold"):
                 continue
             if mv[0] != "step":
                 continue
